@@ -194,3 +194,7 @@ CORPUS += [
     V("C12", "select-best-only-for-multistart", _DEC, "        if self.num_starts > 0 and self.select_best:", "        if self.multistart and self.select_best:", "C12.f"),
     V("C12", "eq-select-best-guard-commuted", _DEC, "        if self.num_starts > 0 and self.select_best:", "        if self.select_best and self.num_starts > 0:", None),
 ]
+
+CORPUS += [
+    V("C18", "pdp-extra-row-kept-with-a-depot-sampler", _PG, "            locs = self.loc_sampler.sample((*batch_size, self.num_loc, 2))", "            locs = self.loc_sampler.sample((*batch_size, self.num_loc + 1, 2))", "C18.s"),
+]
